@@ -49,6 +49,39 @@ package jsonrpc2
 //@ pure registryWF(reg map[string]Method) bool = forall name string :: has(reg, name) ==> numin(reg[name].Method.Func) == 1 + ite(reg[name].HasCtx, 1, 0) + len(reg[name].ArgTypes)
 //@      && reg[name].ErrPos < numout(reg[name].Method.Func) && numout(reg[name].Method.Func) >= 0 && (reg[name].ErrPos >= 0 ==> outerr(reg[name].Method.Func, reg[name].ErrPos))
 
+// ---- registration (C16): what ends up callable ---------------------------------------------------
+// Methods enumerates the exported methods of a receiver by reflection (trusted: reflection is outside the subset).
+// Every name it returns is a non-empty Go method name and every Method it builds is well-formed.
+//@ func Methods
+//@ property C16
+//@ trusted reflection over the receiver's method set; cross-checked by the existing TestMethods/TestServer
+//@ ensures [names-and-shapes] err == nil ==> result != nil && (forall k string :: has(result, k) ==> len(k) > 0
+//@        && numin(result[k].Method.Func) == 1 + ite(result[k].HasCtx, 1, 0) + len(result[k].ArgTypes) && result[k].ErrPos < numout(result[k].Method.Func)
+//@        && numout(result[k].Method.Func) >= 0 && (result[k].ErrPos >= 0 ==> outerr(result[k].Method.Func, result[k].ErrPos)))
+//@ ensures [a-new-map] err == nil ==> !old(allocated(result))
+//@ modifies alloc
+
+// Register: with an allow-list, every name that becomes callable is the prefix followed by a listed name; without one,
+// the prefix followed by something; names registered earlier stay as they were or are replaced by a method of this
+// receiver; the registry stays well-formed; a failed registration changes nothing.
+//@ func (*Server).Register
+//@ property C10 C16
+//@ safety on
+//@ requires s != nil && !held(s.mu) && (s.registry != nil ==> registryWF(s.registry))
+//@ ensures [unlocked] !held(s.mu)
+//@ ensures [well-formed] err == nil ==> s.registry != nil && registryWF(s.registry)
+//@ ensures [allow-list-restricts] err == nil && len(onlyMethods) > 0 ==> forall k string :: has(s.registry, k) && !old(s.registry != nil && has(s.registry, k)) ==>
+//@        (exists q int :: off(onlyMethods) <= q && q < off(onlyMethods) + len(onlyMethods) && k == concat(prefix, elems(onlyMethods)[q]))
+//@ ensures [under-the-prefix] err == nil ==> forall k string :: has(s.registry, k) && !old(s.registry != nil && has(s.registry, k)) ==> (exists x string :: len(x) > 0 && k == concat(prefix, x))
+//@ ensures [nothing-unregistered] forall k string :: old(s.registry != nil && has(s.registry, k)) ==> has(s.registry, k)
+//@ loop 0 invariant [list] methodWhitelist != nil && (forall x string :: has(methodWhitelist, x) ==>
+//@        (exists q int :: off(onlyMethods) <= q && q < off(onlyMethods) + rangeidx && elems(onlyMethods)[q] == x))
+//@ loop 1 invariant [lock] held(s.mu) && s.registry != nil && registryWF(s.registry)
+//@ loop 1 invariant [source] methods != nil && methods != s.registry && registryWF(methods) && (forall k string :: has(methods, k) ==> len(k) > 0)
+//@ loop 1 invariant [filtered] forall k string :: has(s.registry, k) && !old(s.registry != nil && has(s.registry, k)) ==>
+//@        (exists x string :: len(x) > 0 && k == concat(prefix, x) && (methodWhitelist == nil || has(methodWhitelist, x)))
+//@ loop 1 invariant [kept] forall k string :: old(s.registry != nil && has(s.registry, k)) ==> has(s.registry, k)
+
 //@ func parsePositionalArguments
 //@ property C15 C16
 //@ safety on
